@@ -271,6 +271,9 @@ pub struct InstructionGenerator {
     /// second copy of a `FOR ... STEP` body, so that the labels of blocks
     /// nested in the two copies of the body remain distinct.
     pub label_suffix: String,
+    /// The number of FOR loop bodies that enclose the statement being generated
+    /// (each one has pushed a frame on the register stack).
+    pub for_depth: usize,
 }
 
 impl InstructionGenerator {
@@ -282,6 +285,7 @@ impl InstructionGenerator {
             current_subprogram: ScopeName::Global,
             linter_names,
             label_suffix: String::new(),
+            for_depth: 0,
         }
     }
 
